@@ -25,6 +25,8 @@ INPUTS = {   # name: (text, expected return code for type 's')
     'config_read': (b'diag_log str (getNumber (configFile >> "CfgA" >> "v"));', 0),
 }
 CONFIG = b'class CfgA { v = 5; };'
+# assembly texts for type 'a': (text, documented return code)
+ASM = [(b'push 1 endStatement', 0), (b'push "x" callUnary diag_log endStatement', 0), (b'push [1, {push 2 endStatement}] assignTo "gv_c" endStatement', 0), (b'push', -3), (b'callUnary', -3), (b'push 1 callBinary', -3), (b'$$ garbage', -3), (b'', 0)]
 
 def hist_case(m, length):
     N = m.NAMES
@@ -44,7 +46,7 @@ def hist_case(m, length):
         have_config = False; have_global = False
         try:
             for step in range(length):
-                op = C01.choose('op%d' % step, 5)
+                op = C01.choose('op%d' % step, 6)
                 calld = 0xC000 + step
                 del logs[:]
                 tag = 'after %s; ' % ' ; '.join(hist)
@@ -88,6 +90,15 @@ def hist_case(m, length):
                     r1 = vmh.s32(N['w_api_call'](hptr, calld, ord('s'), rt.make_bytes(text, 'input'), len(text)))
                     r2 = vmh.s32(N['w_api_status'](hptr)); r3 = vmh.s32(N['w_api_load_config'](hptr, rt.make_bytes(CONFIG, 'input'), len(CONFIG)))
                     if (r1, r2, r3) != (-1, -1, -1): rt.record_violation('assert', tag + 'invalid handle must give -1 from call/status/load_config, got %r' % ((r1, r2, r3),))
+                elif op == 5:
+                    # type 'p': preprocess only; the preprocessed text is delivered to the callback, return code 0 / -2
+                    k = C01.choose('pin%d' % step, 3); nm = ['ok', 'pp_error', 'empty'][k]; text, _ = INPUTS[nm]
+                    hist.append('call p %s' % nm)
+                    r = vmh.s32(N['w_api_call'](inst, calld, ord('p'), rt.make_bytes(text, 'input', 'code'), len(text)))
+                    exp3 = -2 if nm == 'pp_error' else 0
+                    if r != exp3: rt.record_violation('assert', tag + "sqfvm_call(type 'p', %s) returned %d, documented %d" % (nm, r, exp3))
+                    for u, c, sev, msg in logs:
+                        if u != USER or c != calld: rt.record_violation('assert', tag + "diagnostic of sqfvm_call(type 'p') delivered with user_data %#x / call_data %#x" % (u, c)); break
                 elif op == 4:
                     hist.append('load_config <malformed>')
                     bad = b'class A { v = ; };'
@@ -102,6 +113,28 @@ def hist_case(m, length):
         return dict(text=' ; '.join(hist), n=len(hist))
     return case
 
+def asm_case(m, k):
+    """type 'a' (SQF assembly text) on a fresh instance: documented return code, a diagnostic for every failure, no crash, no hang"""
+    N = m.NAMES
+    text, exp = ASM[k]
+    def case():
+        logs = []
+        def cb(user, call, sev, msg, n): logs.append((user, call, vmh.s32(sev), rt.read_bytes(msg, n).decode('latin1') if n else ''))
+        rt.EXT['verif_api_log'] = cb
+        t = {'v': 1_700_000_000_000_000_000}
+        def clk(): t['v'] += 1_000_000; return t['v']
+        rt.HOOKS['clock'] = clk
+        try:
+            USER = 0xAAA0; inst = N['w_api_create'](USER, 0.5, 1)
+            r = vmh.s32(N['w_api_call'](inst, 0xC0DE, ord('a'), rt.make_bytes(text, 'input', 'code'), len(text)))
+            if r != exp: rt.record_violation('assert', "sqfvm_call(type 'a', %r) returned %d, documented %d" % (text, r, exp))
+            if exp in (-3, -6) and r == exp and not [l for l in logs if l[2] in (0, 1)]: rt.record_violation('assert', "sqfvm_call(type 'a', %r) failed with %d but no error diagnostic reached the callback" % (text, r))
+            sts = vmh.s32(N['w_api_status'](inst))
+            if sts != 0: rt.record_violation('assert', "after sqfvm_call(type 'a', %r): sqfvm_status is %d" % (text, sts))
+        finally: rt.HOOKS.pop('clock', None)
+        return dict(text="call a %r" % text, n=1)
+    return case
+
 def replay(spec):
     return None, 'no native replay'
 
@@ -114,8 +147,21 @@ def run(ctx):
                   assumptions=['system_clock::now() is a virtual clock (+1 ms per reading)', 'sqfvm_create_instance_basic operator set', 'allocation failure is out of scope'], case_timeout=2400,
                   keyfn=lambda cid, v, rr: 'api:' + v.get('msg', '')[v.get('msg', '').find('; ') + 2:][:100].replace(' ', '_') if v.get('kind') == 'assert' else 'api:%s:%s' % (v.get('kind'), v.get('msg', '')[:60].replace(' ', '_')),
                   step_limit=600_000_000, sample_fn=lambda rr: dict(history=rr.get('text')) if rr.get('text') else None)
-    if not r: return []
-    ob, recs = r
-    for v in ob['violations']: v['trust_without_replay'] = True
-    oblig.witness_check(ob, recs, lambda rr: rr['verdict'] == 'ok' and rr.get('n'), 'a history run to destroy')
-    return [ob]
+    obs = []
+    if r:
+        ob, recs = r
+        for v in ob['violations']: v['trust_without_replay'] = True
+        oblig.witness_check(ob, recs, lambda rr: rr['verdict'] == 'ok' and rr.get('n'), 'a history run to destroy'); obs.append(ob)
+    def akey(cid, v, rr):
+        if v.get('kind') == 'nontermination': return 'api.asm:hang'
+        if v.get('kind') in ('memory', 'exception', 'abort', 'ub', 'alloc'): return 'api.asm:crash'
+        if 'returned 0, documented -3' in v.get('msg', ''): return 'api.asm:parse-error-returns-0'
+        return 'api.asm:' + v.get('msg', '')[:80].replace(' ', '_')
+    r = oblig.run('api.asm', [('asm%d' % k, asm_case(m, k)) for k in range(len(ASM))], ctx, funcs, "sqfvm_call with type 'a' (SQF assembly) on a fresh instance: %d texts (valid programs, truncated instructions, a character outside the assembly alphabet, empty)" % len(ASM),
+                  assumptions=['system_clock::now() is a virtual clock (+1 ms per reading)', 'allocation failure is out of scope'], case_timeout=600, keyfn=akey, step_limit=30_000_000,
+                  budget_is_violation="sqfvm_call(type 'a') does not return", sample_fn=lambda rr: dict(call=rr.get('text')) if rr.get('text') else None)
+    if r:
+        ob, recs = r
+        for v in ob['violations']: v['trust_without_replay'] = True
+        oblig.witness_check(ob, recs, lambda rr: rr.get('n'), 'an assembly call that returned'); obs.append(ob)
+    return obs
